@@ -551,6 +551,9 @@ pub enum SimEv {
     PopLayer,
     Fill,
     Cached(u32),
+    PushClipGlyph,
+    /// `fill_glyph` of a client that overrides it: (a brush transform is passed)
+    FillGlyph(bool),
 }
 
 #[derive(Clone, Copy, Debug, PartialEq, Eq)]
@@ -568,6 +571,12 @@ pub struct Sim<'a> {
     /// (checked by `dedup_gate`).
     path: Vec<&'a Node>,
     pub events: Vec<SimEv>,
+    /// the client keeps the trait's provided `fill_glyph` (which decomposes into clip / transform / fill)
+    decompose: bool,
+    /// Some while the sub-graph of a PaintGlyph is traversed with the collecting painter ("fill
+    /// trial", documented in traversal.rs: a PaintGlyph whose sub-graph consists of transforms and
+    /// fills only is reported through `fill_glyph`): (still foldable, a transform was collected)
+    trial: Option<(bool, bool)>,
 }
 
 impl<'a> Sim<'a> {
@@ -586,13 +595,40 @@ impl<'a> Sim<'a> {
         }
     }
 
+    /// a push/pop of a clip or layer: inside a fill trial it only marks the trial as failed
+    fn structural(&mut self, e: SimEv) {
+        match &mut self.trial {
+            Some(t) => t.0 = false,
+            None => self.events.push(e),
+        }
+    }
+
     fn node(&mut self, n: &'a Node, depth: usize) -> Result<(), SimErr> {
         if depth >= 64 {
             return Err(SimErr::Depth);
         }
         match n {
             Node::Fill(_) => {
-                self.events.push(SimEv::Fill);
+                match self.trial {
+                    None => self.events.push(SimEv::Fill),
+                    // the collecting painter forwards a fill as fill_glyph while the trial is intact
+                    Some((true, has_xf)) => {
+                        if self.decompose {
+                            self.events.push(SimEv::PushClipGlyph);
+                            if has_xf {
+                                self.events.push(SimEv::PushTransform);
+                            }
+                            self.events.push(SimEv::Fill);
+                            if has_xf {
+                                self.events.push(SimEv::PopTransform);
+                            }
+                            self.events.push(SimEv::PopClip);
+                        } else {
+                            self.events.push(SimEv::FillGlyph(has_xf));
+                        }
+                    }
+                    Some((false, _)) => {}
+                }
                 Ok(())
             }
             Node::Grad(_) => unreachable!("filtered by supported()"),
@@ -603,16 +639,21 @@ impl<'a> Sim<'a> {
                 }
                 let g = self.g;
                 self.enter(&g.bases[idx])?;
-                self.events.push(SimEv::Cached(*gid as u32));
-                let r = if self.cache_ok {
+                // the collecting painter does not forward paint_cached_color_glyph: the provided default
+                // answers Unimplemented without the client being asked
+                let in_trial = self.trial.is_some();
+                if !in_trial {
+                    self.events.push(SimEv::Cached(*gid as u32));
+                }
+                let r = if self.cache_ok && !in_trial {
                     Ok(())
                 } else {
                     if g.clip {
-                        self.events.push(SimEv::PushClipBox);
+                        self.structural(SimEv::PushClipBox);
                     }
                     let r = self.node(&g.bases[idx], depth + 1);
                     if g.clip {
-                        self.events.push(SimEv::PopClip);
+                        self.structural(SimEv::PopClip);
                     }
                     r
                 };
@@ -632,19 +673,46 @@ impl<'a> Sim<'a> {
                 }
                 Ok(())
             }
-            Node::Unary(_, c) | Node::Xf(_, _, c) => {
-                self.events.push(SimEv::PushTransform);
-                let r = self.node(c, depth + 1);
-                self.events.push(SimEv::PopTransform);
+            Node::Unary(Un::Glyph, c) => {
+                if let Some(t) = &mut self.trial {
+                    // a PaintGlyph below a PaintGlyph: cannot be folded, the outer trial fails right here
+                    t.0 = false;
+                    return Ok(());
+                }
+                self.trial = Some((true, false));
+                let mut r = self.node(c, depth + 1);
+                let (intact, _) = self.trial.take().unwrap();
+                if !intact {
+                    self.events.push(SimEv::PushClipGlyph);
+                    r = self.node(c, depth + 1);
+                    self.events.push(SimEv::PopClip);
+                }
                 r
             }
+            Node::Unary(_, c) | Node::Xf(_, _, c) => {
+                match &mut self.trial {
+                    // collected into the brush transform (never popped) while the trial is intact
+                    Some(t) => {
+                        if t.0 {
+                            t.1 = true;
+                        }
+                        self.node(c, depth + 1)
+                    }
+                    None => {
+                        self.events.push(SimEv::PushTransform);
+                        let r = self.node(c, depth + 1);
+                        self.events.push(SimEv::PopTransform);
+                        r
+                    }
+                }
+            }
             Node::Composite(s, b) => {
-                self.events.push(SimEv::PushLayer);
+                self.structural(SimEv::PushLayer);
                 self.node(b, depth + 1)?;
-                self.events.push(SimEv::PushLayer);
+                self.structural(SimEv::PushLayer);
                 let r = self.node(s, depth + 1);
-                self.events.push(SimEv::PopLayer);
-                self.events.push(SimEv::PopLayer);
+                self.structural(SimEv::PopLayer);
+                self.structural(SimEv::PopLayer);
                 r
             }
         }
@@ -658,18 +726,18 @@ fn supported(n: &Node, var_store: bool) -> bool {
         Node::Fill(f) => !matches!(f, Fill::LinearDegenerate | Fill::SweepEmpty) && !(var_store && format!("{f:?}").starts_with("Var")),
         Node::Grad(_) => false,
         Node::ColrGlyph(_) | Node::ColrLayers(..) => true,
-        Node::Unary(u, c) | Node::Xf(u, _, c) => *u != Un::Glyph && supported(c, var_store),
+        Node::Unary(_, c) | Node::Xf(_, _, c) => supported(c, var_store),
         Node::Composite(a, b) => supported(a, var_store) && supported(b, var_store),
     }
 }
 
 /// Expected (result, callback stream) of painting glyph 1 with format v1, or None when the graph is
 /// outside the interpreter's model.
-pub fn simulate(g: &Graph, cache_ok: bool) -> Option<(Result<(), SimErr>, Vec<SimEv>)> {
+pub fn simulate(g: &Graph, cache_ok: bool, decompose: bool) -> Option<(Result<(), SimErr>, Vec<SimEv>)> {
     if g.v0.is_some() || g.bases.is_empty() || !g.bases.iter().chain(g.layers.iter()).all(|n| supported(n, g.var_store)) {
         return None;
     }
-    let mut s = Sim { g, cache_ok, path: vec![], events: vec![] };
+    let mut s = Sim { g, cache_ok, path: vec![], events: vec![], decompose, trial: None };
     if g.clip {
         s.events.push(SimEv::PushClipBox);
     }
